@@ -12,12 +12,20 @@ CFGS = {
     'ctor_init': ['-DGLM_FORCE_CTOR_INIT'],
     'aligned_gentypes': ['-DGLM_FORCE_ALIGNED_GENTYPES', '-DGLM_FORCE_INTRINSICS', '-mavx2', '-DC16_EXPECT_ALIGNED'],
     'default_aligned': ['-DGLM_FORCE_DEFAULT_ALIGNED_GENTYPES', '-DGLM_FORCE_INTRINSICS', '-mavx2', '-DC16_EXPECT_ALIGNED', '-DC16_EXPECT_DEFAULT_ALIGNED'],
+    'default_aligned+messages': ['-DGLM_FORCE_MESSAGES', '-DGLM_FORCE_DEFAULT_ALIGNED_GENTYPES', '-DGLM_FORCE_INTRINSICS', '-mavx2', '-DC16_EXPECT_ALIGNED', '-DC16_EXPECT_DEFAULT_ALIGNED'],
     'wxyz+avx2': ['-DGLM_FORCE_QUAT_DATA_WXYZ', '-DC16_EXPECT_WXYZ', '-DGLM_FORCE_INTRINSICS', '-mavx2', '-DC16_EXPECT_ALIGNED'],
     'swizzle+avx2': ['-DGLM_FORCE_SWIZZLE', '-DGLM_FORCE_INTRINSICS', '-mavx2', '-DC16_EXPECT_ALIGNED'],
 }
 for n, f in ISA:
     CFGS['intrinsics-' + n] = ['-DGLM_FORCE_INTRINSICS', f, '-DC16_EXPECT_ALIGNED']
-QUICK = ['default', 'intrinsics-avx2', 'wxyz', 'xyzw_only', 'size_t_length', 'swizzle+avx2']
+QUICK = ['default', 'intrinsics-avx2', 'wxyz', 'xyzw_only', 'size_t_length', 'swizzle+avx2', 'default_aligned+messages']
+
+
+def c16_prebuild(stage, pid, tier):
+    import sys, os
+    sys.path.insert(0, os.path.join(props.vlib.ROOT, 'gen'))
+    import c16_typedefs
+    c16_typedefs.generate(pid, stage)
 
 
 def SPEC(tier):
@@ -25,7 +33,9 @@ def SPEC(tier):
     stages = []
     for n in names:
         cmd = ['clang++' if n.startswith('swizzle+') else 'g++', '-O1'] + props.vlib.COMMON
-        stages.append(Stage(n, ['props/C16_layout.cpp'], cmd=cmd, flags=CFGS[n] + ['-DC16_CFG="%s"' % n]))
+        st = Stage(n, ['props/C16_layout.cpp'], cmd=cmd, flags=CFGS[n] + ['-DC16_CFG="%s"' % n], deps=['gen/c16_typedefs.py'])
+        st.prebuild = c16_prebuild
+        stages.append(st)
     return {'stages': stages, 'build_failure_is_violation': True,
             'assumptions': props.COMMON_ASSUME + ['the contract model is the one of manual.md sections 2.9/2.10/2.18/2.21/4.18 and glm/detail/qualifier.hpp: packed = L contiguous T; aligned = size and alignment (L==3 ? 4 : L)*sizeof(T); matrix = C consecutive columns',
                                                    'aligned gentypes without intrinsics cannot be built with gcc/clang on Linux'],
